@@ -735,7 +735,10 @@ pub fn check_type(
         };
 
         if state.have_examined(&o, &tc) {
+            // An examined check counts as passed, also when it is an
+            // alternative tried after another one has failed.
             //println!(" skipping examined object check");
+            result = None;
             continue
         }
         state.examine(&o, &tc);
